@@ -6,9 +6,16 @@ A_BUILTINS = "A-builtins: pyvc's models of CPython builtins (len sum all any tup
 A_TERM = "termination not proved (partial correctness)"
 A_INT = "Python int is a mathematical integer (exact, no assumption); float treated as real where it enters kernel code (A-float)"
 
+# every contract module; a task serves the properties listed in its `props`
+PYVC_MODULES = [
+    "contracts.symmetries",
+    "contracts.oddpos",
+    "contracts.phases",
+]
+
 PROPERTY_MAP = {
     "C17": {
-        "pyvc": ["contracts.symmetries"],
+        "pyvc": True,
         "bounded": ["bounded.run_C17"],
         "level": "proof",
         "explanation": "Group laws, parity homomorphism and canonical-representative clauses for Z2, Z4, U1, Z2Z2, U1U1 are obligations over symbolic executions of the real method bodies (all of Z for U1-type, every arity through the ghost fold); sector enumeration is proved sound/complete/duplicate-free for arbitrary rank from the loop body of gen_valid_sectors. The bounded run re-executes the same laws exhaustively as a cross-check of the encoder.",
